@@ -17,3 +17,11 @@ package smpeer
 //@   modifies
 //@   ensures [C10] stored: r != nil && typeis(ctxvalue(r, key(0)), *Metadata) && ctxvalue(r, key(0)).(*Metadata) == metadata
 //@ end
+//@
+//@ func FromCER(cer) (meta)
+//@   property C11
+//@   requires cer != nil
+//@   modifies
+//@   ensures [C11] identity_and_shared_applications: meta != nil && fresh(meta) && meta.OriginHost == cer.OriginHost && meta.OriginRealm == cer.OriginRealm &&
+//@          sameslice(meta.Applications, cer.appID)
+//@ end
